@@ -10,4 +10,10 @@ require (
 	google.golang.org/protobuf v1.34.2
 )
 
+require (
+	go.uber.org/multierr v1.11.0 // indirect
+	golang.org/x/crypto v0.17.0 // indirect
+	golang.org/x/sys v0.19.0 // indirect
+)
+
 replace github.com/google/go-tdx-guest => /repo
